@@ -6,6 +6,8 @@ Spec: spec/TokenAware.tla - TokenAwarePlan(reps, child, up, dist, shuffle) = rep
       including hosts the child still lists whose is_up is not True) and checks NoRepeat, ChildCovered,
       ExactHosts, HeadIsLiveLocalReplicas, HeadInRingOrder, TailInChildOrder on the definition.
       spec/Placement.tla supplies the rings: a small exhaustive set of ring / layout / replication instances.
+      Placement.tla AlterReplication: the keyspace's settings change between plans; the head must follow the
+      CURRENT settings (histories enumerated by TLC, installed through Metadata._update_keyspace / _rebuild_all).
 Bind: every enumerated input combination is evaluated on the real TokenAwarePolicy wrapping a fixed-plan child
       policy, over a real Metadata whose token map and keyspace come from a Placement.tla instance whose real
       get_replicas list for the chosen key has the enumerated length (hosts renamed so that the lists coincide);
@@ -45,7 +47,7 @@ MAX_REPORTED_PER_SIGNATURE = 2
 def ring_index(ctx, n):
     """Placement.tla instances -> {replica-list length: [(instance, key position)]} using the real get_replicas;
     instances on which the real replica list is not the specified set (C26's concern) are left out."""
-    consts = {"MaxHosts": n, "MaxDCs": 2, "MaxRacks": 2, "MaxRing": 4, "MaxRF": 3, "Lens": {1, 2, 3, 4}}
+    consts = {"MaxHosts": n, "MaxDCs": 2, "MaxRacks": 2, "MaxRing": 4, "MaxRF": 3, "Lens": {1, 2, 3, 4}, "MaxAlters": 0}
     cfg = tlc.write_cfg(os.path.join(ctx.scratch, "PlacementRings.cfg"), constants=consts,
                         invariants=["TypeOK", "SimpleCount", "NTSCountPerDc", "LookupOK"], deadlock=False)
     res, states = tlc.enumerate_states("Placement", cfg, ctx.scratch, timeout=900)
@@ -146,6 +148,106 @@ def evaluate(binder, st, inst, key, n):
     return fails, details
 
 
+ALTER_INVARIANTS = ["TypeOK", "SimpleCount", "NTSCountPerDc", "LookupOK", "CurrentSettingsOnly"]
+
+
+def alter_plans(inst, shuffle, down):
+    """One Placement.tla history (replication settings altered after plans were made) on the real TokenAwarePolicy.
+    All hosts LOCAL, child plan = every host in increasing order, host `down` (0 = none) has is_up False.
+    Returns failures [(type, text, details)]."""
+    hist = inst["hist"]
+    L_ = len(inst["ring"])
+    b = L.TokenAwareBinding(dict(inst, strat=hist[0]), len(inst["dc"]))
+    hosts = list(range(1, b.n + 1))
+    up = {h: ("F" if h == down else "T") for h in hosts}
+    dist = {h: "LOCAL" for h in hosts}
+    keys = range(1, 2 * L_ + 2)
+    for n, s in enumerate(hist[1:]):
+        for k in keys:                                            # plans under the old settings (replica cache filled)
+            _, err = b.plan(k, hosts, up, dist, shuffle)
+            if err:
+                return [("exception", err, {"key": k})]
+        try:
+            b.alter(s, via="rebuild_all" if (n + L_) % 2 else "update")
+        except Exception as ex:
+            return [("exception", "%s: %s" % (type(ex).__name__, ex), {})]
+    out = []
+    for k in keys:
+        exp = [h for h in inst["byKey"][k - 1] if up[h] == "T"]
+        plan, err = b.plan(k, hosts, up, dist, shuffle)
+        if err:
+            out.append(("exception", err, {"key": k}))
+            continue
+        tail = [h for h in hosts if h not in exp]
+        if len(set(plan)) != len(plan):
+            out.append(("host-repeated", "plan %s repeats a host" % (plan,), {"key": k, "plan": plan}))
+        elif sorted(plan[:len(exp)]) != sorted(exp) or plan[len(exp):] != tail:
+            out.append(("stale-replicas-after-alter",
+                        "key position %d: under the current settings %s the live local replicas are %s, so the plan must be "
+                        "those (any order) then %s; the real plan is %s" % (k, hist[-1], sorted(exp), tail, plan),
+                        {"key": k, "plan": plan, "expected_head": sorted(exp), "expected_tail": tail}))
+    return out
+
+
+def alter_domain(ctx, by_sig):
+    """AlterReplication between plans: TLC-enumerated rings x settings histories, bound on the real objects."""
+    consts = ({"MaxHosts": 3, "MaxDCs": 2, "MaxRacks": 2, "MaxRing": 3, "MaxRF": 2, "Lens": {2, 3}, "MaxAlters": 1} if ctx.quick else
+              {"MaxHosts": 3, "MaxDCs": 2, "MaxRacks": 2, "MaxRing": 4, "MaxRF": 2, "Lens": {2, 3, 4}, "MaxAlters": 1})
+    cfg = tlc.write_cfg(os.path.join(ctx.scratch, "PlacementAlter.cfg"), constants=consts, invariants=ALTER_INVARIANTS, deadlock=False)
+    res, states = tlc.enumerate_states("Placement", cfg, ctx.scratch, coverage=True, timeout=900)
+    ctx.add_tlc(res, "placement-alter-histories")
+    if res.violation:
+        ctx.violation("TLC: invariant %s violated in Placement.tla (AlterReplication)" % res.invariant,
+                      replay={"trace": [s for _, s in res.trace()]}, signature="spec:" + str(res.invariant))
+        return False
+    if res.coverage().get("AlterReplication", (0, 0))[1] == 0:
+        raise tlc.MachineryError("action AlterReplication never taken")
+    wcfg = tlc.write_cfg(os.path.join(ctx.scratch, "WitnessAlter.cfg"), constants=consts, invariants=["Witness_AlterChangesReplicas"],
+                         deadlock=False)
+    wres = tlc.check_model("Placement", wcfg, ctx.scratch, timeout=600, workers=2, heap="1g")
+    if wres.invariant != "Witness_AlterChangesReplicas":
+        raise tlc.MachineryError("vacuity witness Witness_AlterChangesReplicas was not reached")
+    hists = [PL.instance_of(s) for s in states if s["phase"] == "done" and len(s["hist"]) > 1]
+    kinds = {(h["hist"][-2]["kind"], h["hist"][-1]["kind"]) for h in hists}
+    if kinds != {("Simple", "Simple"), ("Simple", "NTS"), ("NTS", "Simple"), ("NTS", "NTS")}:
+        raise tlc.MachineryError("alterations enumerated do not cover all strategy changes: %s" % sorted(kinds))
+    hists.sort(key=lambda h: (h["ring"], h["dc"], h["rack"], repr(h["hist"])))
+    ctx.note("constants_alter", {k: (sorted(v) if isinstance(v, set) else v) for k, v in consts.items()})
+    ctx.note("altered_histories", len(hists))
+    plans = 0
+    for i, inst in enumerate(hists):
+        for shuffle, down in ((False, 0), (True, inst["ring"][i % len(inst["ring"])])):
+            fails = alter_plans(inst, shuffle, down)
+            ctx.evaluations += 1
+            plans += 2 * len(inst["ring"]) + 1
+            if fails:
+                det = {"n": len(inst["dc"]), "reps": [], "child": list(range(1, len(inst["dc"]) + 1)), "up": {}, "dist": {},
+                       "shuffle": shuffle, "head": [], "tail": [], "key_position": fails[0][2].get("key"),
+                       "ring_instance": {k: inst[k] for k in ("ring", "dc", "rack", "strat")}, "alter": {"instance": inst, "down": down}}
+                by_sig.setdefault("TokenAware:" + fails[0][0], []).append((len(inst["ring"]) + len(inst["hist"]), det, [f[:2] for f in fails]))
+                continue
+            ctx.traces_validated += 1
+            ctx.nontrivial(("alter", tuple(inst["ring"]), tuple(inst["dc"]), tuple(inst["rack"]), repr(inst["hist"]), shuffle, down))
+            if i % 400 == 9 and not shuffle:
+                ctx.sample({"ring": inst["ring"], "dc": inst["dc"], "rack": inst["rack"], "settings_history": inst["hist"],
+                            "replicas_by_key_under_current_settings": inst["byKey"]})
+    ctx.note("plans_after_alteration_checked", plans)
+    # self-test: the same history judged against the settings in the opposite order must get a different verdict
+    probes = [h for h in hists if len(h["hist"]) == 2 and h["hist"][0]["kind"] == "Simple" and h["hist"][1]["kind"] == "Simple"
+              and h["hist"][0]["rf"] < h["hist"][1]["rf"] <= len(h["dc"])][:40]
+    noticed = 0
+    for probe in probes:
+        swapped = dict(probe, hist=[probe["hist"][1], probe["hist"][0]])
+        if [f[:1] for f in alter_plans(swapped, False, 0)] != [f[:1] for f in alter_plans(probe, False, 0)]:
+            noticed += 1
+    if not noticed:
+        raise tlc.MachineryError("binding self-test failed: order of replication settings never influences the verdict "
+                                 "(%d Simple->Simple histories tried)" % len(probes))
+    st = ctx.extra.setdefault("binding_selftest", {"corrupted_rejected": 0})
+    st["corrupted_rejected"] += 1
+    return True
+
+
 def run(ctx):
     L.seed_shuffle(ctx.rng)
     wconsts = {"N": 2, "MaxReps": 2}
@@ -163,6 +265,8 @@ def run(ctx):
     for n, maxreps, per_state in configs:
         if not one_domain(ctx, n, maxreps, per_state, by_sig):
             return
+    if not alter_domain(ctx, by_sig):
+        return
     counts = {}
     for sig, lst in sorted(by_sig.items()):
         counts[sig] = len(lst)
@@ -174,6 +278,14 @@ def run(ctx):
                 seen.add(k)
                 uniq.append(t)
         for _, det, fails in uniq[:MAX_REPORTED_PER_SIGNATURE]:
+            if "alter" in det:
+                a = det["alter"]["instance"]
+                ctx.violation("ring owners %s, dc %s, rack %s, replication %s, plans made, then altered to %s (host down: %s, shuffle %s): %s"
+                              % (a["ring"], a["dc"], a["rack"], a["hist"][:-1], a["hist"][-1], det["alter"]["down"] or "none",
+                                 det["shuffle"], fails[0][1]),
+                              replay={"alter": det["alter"], "shuffle": det["shuffle"], "failures": [list(f) for f in fails]},
+                              signature=sig)
+                continue
             ctx.violation("replicas %s, child plan %s, is_up %s, distance %s, shuffle %s: %s"
                           % (det["reps"], det["child"], det["up"], det["dist"], det["shuffle"], fails[0][1]),
                           replay={"n": det["n"], "state": {k: det[k] for k in ("reps", "child", "up", "dist", "shuffle", "head", "tail")},
@@ -246,6 +358,17 @@ def one_domain(ctx, n, maxreps, per_state, by_sig):
 
 def replay(ctx, obj):
     L.seed_shuffle(ctx.rng)
+    if "alter" in obj:
+        inst = obj["alter"]["instance"]
+        fails = alter_plans(inst, obj["shuffle"], obj["alter"]["down"])
+        print("ring owners %s dc %s rack %s settings history %s" % (inst["ring"], inst["dc"], inst["rack"], inst["hist"]))
+        for f in fails:
+            print("  %s: %s" % (f[0], f[1]))
+        if fails:
+            ctx.violation("replayed: %s" % fails[0][1], replay=obj, signature="TokenAware:" + fails[0][0])
+        else:
+            print("no mismatch")
+        return
     st = obj["state"]
     state = {"reps": tuple(st["reps"]), "child": tuple(st["child"]),
              "up": tuple(st["up"][str(h)] if str(h) in st["up"] else st["up"][h] for h in range(1, obj["n"] + 1)),
